@@ -329,6 +329,16 @@ func derivesFromChecksum(c *Ctx, v ssa.Value, depth int, seen map[ssa.Value]bool
 				if st, ok := r.(*ssa.Store); ok && derivesFromChecksum(c, st.Val, depth+1, seen) {
 					return true
 				}
+				// a local array filled by copy(arr[:], <checksum bytes>)
+				if sl, ok := r.(*ssa.Slice); ok && sl.Referrers() != nil {
+					for _, rr := range *sl.Referrers() {
+						if cp, ok := rr.(*ssa.Call); ok {
+							if b, isB := cp.Call.Value.(*ssa.Builtin); isB && b.Name() == "copy" && cp.Call.Args[0] == ssa.Value(sl) && derivesFromChecksum(c, cp.Call.Args[1], depth+1, seen) {
+								return true
+							}
+						}
+					}
+				}
 			}
 		}
 		return derivesFromChecksum(c, x.X, depth+1, seen)
